@@ -327,6 +327,14 @@ func (fc *FuncCtx) execFor(st *State, x *ast.ForStmt, label string) *State {
 	exit := h.clone()
 	exit.guard = and(h.guard, not(cond.S))
 	fc.cover(body, "cover.loop"+strconv.Itoa(ord), x, "loop body reachable under the invariant")
+	for i, ec := range lc.Exits {
+		t := fc.cevalIn(fc.loopEnv(exit, pre, at), ec, x)
+		site := "loop" + strconv.Itoa(ord) + ".exit" + strconv.Itoa(i+1)
+		if ec.Tag != "" {
+			site = "loop" + strconv.Itoa(ord) + "." + ec.Tag
+		}
+		fc.oblige(exit, "loop.exit", site, t.S, x, ec.Text)
+	}
 
 	var v0 Term
 	if lc.Decreases != nil {
@@ -592,8 +600,15 @@ func (fc *FuncCtx) bindRangeVar(st *State, e ast.Expr, v Term, define bool) {
 
 // checkSteps asserts the per-iteration postconditions at the end of the loop body.
 func (fc *FuncCtx) checkSteps(end, bodyStart *State, lc *LoopContract, ord int, pre *State, at token.Pos, n ast.Node) {
+	endAt := at
+	switch l := n.(type) {
+	case *ast.ForStmt:
+		endAt = l.Body.Rbrace
+	case *ast.RangeStmt:
+		endAt = l.Body.Rbrace
+	}
 	for i, sc := range lc.Steps {
-		env := fc.loopEnv(end, pre, at)
+		env := fc.loopEnv(end, pre, endAt) // locals declared in the body are visible at its end
 		env.iter = fc.codeEnv(bodyStart, at)
 		t := fc.cevalIn(env, sc, n)
 		site := "loop" + strconv.Itoa(ord) + ".step" + strconv.Itoa(i+1)
